@@ -156,9 +156,13 @@ def evaluate(c: Dict[str, Any]) -> Tuple[List[Any], Dict[str, Any]]:
         out.append(('existing-file-not-served', feat, {'path': path, 'code': r['code']}, 200))
     # query independence
     if '?' not in path and c.get('with_query', True):
-        r2 = fetch(path + '?x=1&y=../../secret.txt', mcl)
-        if (r2.get('code'), r2.get('body')) != (r.get('code'), r.get('body')):
-            out.append(('query-string-changes-the-answer', feat, {'path': path, 'with': r2.get('code'), 'without': r.get('code')}, None))
+        # queries that merely carry a value, and queries whose own dot-segments would lead elsewhere if the server resolved
+        # the path together with the query (back into the root, further out, to another file)
+        for q_ in ('?x=1&y=../../secret.txt', '?/../public/index.html', '?/../..', '?/../a.txt', '?/..', '?%2e%2e/%2e%2e'):
+            r2 = fetch(path + q_, mcl)
+            if (r2.get('code'), r2.get('body')) != (r.get('code'), r.get('body')):
+                out.append(('query-string-changes-the-answer', dict(feat, query=q_), {'path': path, 'with': r2.get('code'), 'without': r.get('code')}, None))
+                break
     return out, info
 
 
